@@ -50,6 +50,17 @@ type checker struct {
 	hist []hdr.Op
 	vs   []mc.Violation
 	n    int
+	sc   *Scenario
+	op   *hdr.Op        // the operation about to be / just applied
+	pre  map[string]any // values captured by pre-oracles
+	counters map[string]int
+}
+
+func (c *checker) count(k string, n int) {
+	if c.counters == nil {
+		c.counters = map[string]int{}
+	}
+	c.counters[k] += n
 }
 
 func (c *checker) fail(clause, fp, detail string) {
@@ -198,7 +209,9 @@ func (c *checker) chainByHeight(t *ref.Node) {
 }
 
 // oracleC01: the reported chain is the most-work chain of accepted headers.
-func oracleC01(c *checker) {
+var oracleC01 = oracle{post: postC01}
+
+func postC01(c *checker) {
 	if !c.basics() {
 		return
 	}
